@@ -28,12 +28,17 @@ INITIALS = {
     "comments": ("# first comment\na:" + HA + "\n\n# second comment\nb:" + HB + "\n   \n#tail\n").encode(),
     "duplicates": ("a:" + HA + "\nb:" + HB + "\na:" + HO + "\n# note\nb:" + HD + "\nc:" + HC + "\n").encode(),
     "crlf-and-blank": ("a:" + HA + "\r\n\r\nb:" + HB + "\r\n").encode(),
+    "record-unterminated": ("a:" + HA + "\nc:" + HC).encode(),
+    "comment-unterminated": ("a:" + HA + "\n# the end").encode(),
+    "only-comment-unterminated": b"  # nothing here",
 }
 INITIALS_DIGEST = {
     "empty": b"",
     "plain": b"a:r:0123456789abcdef0123456789abcdef\nb:s:fedcba9876543210fedcba9876543210\n",
     "comments": b"# c1\na:r:00000000000000000000000000000000\n\n# c2\na:s:11111111111111111111111111111111\n",
     "duplicates": b"a:r:aaaaaaaaaaaaaaaaaaaaaaaaaaaaaaaa\nb:r:bbbbbbbbbbbbbbbbbbbbbbbbbbbbbbbb\na:r:cccccccccccccccccccccccccccccccc\n# n\n",
+    "record-unterminated": b"a:r:0123456789abcdef0123456789abcdef\nb:s:fedcba9876543210fedcba9876543210",
+    "comment-unterminated": b"a:r:0123456789abcdef0123456789abcdef\n#the end",
 }
 
 
@@ -291,6 +296,13 @@ class Driver:
             if curb is None or self.ctx.needs_update(curb):
                 self.violation("deprecated-hash-not-upgraded", f"check_password succeeded on a deprecated hash but the stored hash is still {curb!r}")
             self.run.count("upgrades_checked")
+            if self.path and self.autosave and not self.dead:
+                # the upgrade is a change of the database: with autosave on it reaches the file
+                with open(self.path, "rb") as fh:
+                    disk = fh.read()
+                self.run.count("upgrade_autosave_checked")
+                if disk != self.obj.to_string():
+                    self.violation("autosave-stale|after-check_password-upgrade", "autosave is on, check_password replaced a deprecated hash, but the file on disk still differs from the exported state")
 
     def load_string(self, data, label):
         ok, _ = self.call("load_string", lambda: self.obj.load_string(data))
@@ -549,6 +561,7 @@ def body(run):
     run.require("random_histories", 500)
     run.require("exports_reread", 30000)
     run.require("upgrades_checked", 20)
+    run.require("upgrade_autosave_checked", 5)
     run.require("name_checks", 200)
     for op in ("save", "load", "load_if_changed", "external", "load_other"):
         run.require(f"op:{op}", 50)
